@@ -744,6 +744,8 @@ class ChunkParser:
         self.last_sec_used = False
         self.working_twprge = None
         self.working_sec = None
+        # Whether a replacement ChunkParser (forced COPY_ALL) took over.
+        self.replaced = False
 
         # Stage flags, etc. before passing them to parent PLSSParser's
         # attributes, in case we find no Tracts during a first pass and
@@ -774,6 +776,10 @@ class ChunkParser:
         :return: ``None``
         """
         self.parse_chunk()
+        if self.replaced:
+            # The replacement ChunkParser has already handed everything
+            # (tract components, flags, unused text) to the parent.
+            return None
         self.gen_flags_chunk()
         parent = self.parent
         parent.w_flags.extend(self.w_flags)
@@ -834,6 +840,7 @@ class ChunkParser:
             # And steal the staged flags, etc. from the replacement to
             # hand off to the parent PLSSParser object.
             replacement = ChunkParser(self.text, COPY_ALL, self.parent)
+            self.replaced = True
             replacement_attributes = (
                 'w_flags', 'w_flag_lines', 'e_flags', 'e_flag_lines',
                 'unused_components', 'tract_components'
